@@ -226,6 +226,99 @@ def gen_fasta(rng, tier="quick", kind="dna", geometry=None, nrec=None, maxlen=No
     return data, {"recs": recs, "geom": geometry, "width": width, "eol": eol, "final_nl": final_nl, "spaces": spaces, "kind": kind}
 
 
+def gen_fasta_layout(rng, kind="dna", nrec=None):
+    """Constant line geometry with exactly k in {0,1,2,3} ignorable bytes (blank / tab) per full line at fixed columns (leading,
+    interior, trailing), LF or CRLF, so that bpl - rpl takes every value in 1..5; every sequence spans several lines; the last
+    line is shorter or exactly full and carries the same columns. Returns (bytes, meta) like gen_fasta."""
+    r = rng.choice([2, 3, 4, 5, 7, 10, 12, 20, 25, 30, rng.randrange(2, 41)])
+    k = rng.choice([0, 1, 1, 1, 2, 2, 3])
+    eol = "\r\n" if rng.random() < 0.35 else "\n"
+    final_nl = rng.random() < 0.8
+    cols = sorted(rng.choice([0, 0, r, rng.randrange(0, r + 1), rng.randrange(1, r) if r > 1 else 0]) for _ in range(k))   # insert before residue column c (r = trailing)
+    blank = rng.choice([" ", " ", "\t"])
+    if nrec is None:
+        nrec = rng.choice([1, 1, 2, 3])
+    used, out, recs = set(), [], []
+    for i in range(nrec):
+        nlines = rng.choice([2, 2, 3, 4, 6])
+        L = (nlines - 1) * r + rng.choice([r, r, 1, r - 1 if r > 1 else 1, rng.randrange(1, r + 1)])
+        seq = rand_residues(rng, L, kind)
+        name = rand_name(rng, used)
+        out.append(">" + name + (" " + rand_desc(rng).split("\x01")[0] if rng.random() < 0.4 else "") + eol)
+        p = 0
+        while p < L:
+            ln = seq[p:p + r]
+            full = len(ln) == r
+            pieces, prev = [], 0
+            for c in cols:
+                if c <= len(ln) and (full or c < len(ln) or c == 0):
+                    pieces.append(ln[prev:c] + blank)
+                    prev = c
+            text = "".join(pieces) + ln[prev:]
+            p += r
+            last = p >= L and i == nrec - 1
+            out.append(text + ("" if (last and not final_nl) else eol))
+        recs.append({"name": name, "desc": "", "seq": seq})
+    data = "".join(out).encode("latin-1")
+    return data, {"recs": recs, "geom": "layout", "width": r, "eol": eol, "final_nl": final_nl, "spaces": k > 0, "kind": kind, "k": k}
+
+
+def gen_linebased(rng, fmt, kind="dna", nrec=None, tier="quick"):
+    """Well-formed EMBL / UniProt (fmt 'embl','uniprot') or GenBank / DDBJ ('genbank','ddbj') files. Returns (bytes, meta)."""
+    if nrec is None:
+        nrec = rng.choice([1, 1, 2, 3, 5])
+    eol = "\r\n" if rng.random() < 0.25 else "\n"
+    final_nl = rng.random() < 0.85
+    used, out, recs = set(), [], []
+    if fmt in ("genbank", "ddbj") and rng.random() < 0.5:
+        out.append("GBSMP.SEQ          Genetic Sequence Data Bank" + eol + "                 15 December 1992" + eol + eol)
+    elif rng.random() < 0.15:
+        out.append(eol)
+    for i in range(nrec):
+        r = rng.random()
+        L = 0 if r < 0.05 else rng.randrange(1, 150) if r < 0.85 else rng.randrange(150, 1500 if tier == "quick" else 20001)
+        seq = rand_residues(rng, L, kind)
+        name = "".join(c for c in rand_name(rng, used) if c not in " ;\t") or "n%d" % i
+        acc = rng.choice(["", "P%05d" % rng.randrange(100000), "X%05d.%d" % (rng.randrange(100000), rng.randrange(1, 9))])
+        while acc and acc in used:
+            acc = "Q%06d" % rng.randrange(1000000)
+        if acc:
+            used.add(acc)
+        desc = [w for w in rand_desc(rng).replace("\x01", " ").split(" ") if w][:8]
+        per = rng.choice([60, 60, 30, 10, 70])
+        if fmt in ("embl", "uniprot"):
+            out.append("ID   %s%s %s; %d %s.%s" % (name, rng.choice([";", "", "  "]), "STD", L, "BP" if kind != "amino" else "AA", eol))
+            out.append("XX" + eol)
+            if acc:
+                out.append("AC   %s;%s%s" % (acc, rng.choice(["", " Q99999;"]), eol))
+                if rng.random() < 0.3:
+                    out.append("AC   Z00001; Z00002;" + eol)       # further accession lines: only the primary accession is kept
+            dl = []
+            for j in range(0, len(desc), 4):
+                dl.append(" ".join(desc[j:j + 4]))
+                out.append("DE   " + dl[-1] + rng.choice(["", " ", "."]) + eol)
+            dtxt = None
+            out.append("SQ   Sequence %d BP;%s" % (L, eol))
+            for p in range(0, L, per):
+                ln = seq[p:p + per]
+                out.append("     " + " ".join(ln[k:k + 10] for k in range(0, len(ln), 10)) + ("   %9d" % min(L, p + per) if rng.random() < 0.8 else "") + eol)
+        else:
+            out.append("LOCUS       %s %d bp    DNA%s" % (name, L, eol))
+            for j in range(0, len(desc), 4):
+                out.append(("DEFINITION  " if j == 0 else "            ") + " ".join(desc[j:j + 4]) + eol)
+            if acc:
+                out.append("ACCESSION   %s%s" % (acc.split(".")[0], eol))
+                out.append("VERSION     %s  GI:%d%s" % (acc, rng.randrange(1, 99999), eol))
+            out.append("ORIGIN      " + eol)
+            for p in range(0, L, per):
+                ln = seq[p:p + per]
+                out.append("%9d " % (p + 1) + " ".join(ln[k:k + 10] for k in range(0, len(ln), 10)) + eol)
+        last = i == nrec - 1
+        out.append("//" + ("" if (last and not final_nl) else eol))
+        recs.append({"name": name, "acc": acc, "seq": seq})
+    return "".join(out).encode("latin-1"), {"recs": recs, "geom": "linebased", "width": 60, "kind": kind, "fmt": fmt}
+
+
 BSIZES = [1, 2, 3, 7, 64, 4096]
 
 
@@ -536,6 +629,60 @@ def keyed(prop_id, case, out, failure_fn):
     return failure_fn(case, out)
 
 
+def parse_block(line):
+    """'ok count=2 complete=1 | name=.. n=.. ... seq=.. | ... | wf=1' -> (count, complete, [dict])"""
+    parts = line.split(" | ")
+    st, d = kv(parts[0])
+    items = []
+    for p in parts[1:]:
+        if p.startswith("wf="):
+            continue
+        _, e = kv("x " + p)
+        try:
+            items.append({"name": unhx(e["name"]), "n": int(e["n"]), "L": int(e["L"]), "start": int(e["start"]), "end": int(e["end"]),
+                          "C": int(e["C"]), "W": int(e["W"]), "seq": unhx(e["seq"]) if e["seq"] != "?" else None})
+        except (KeyError, ValueError):
+            return None
+    return int(d.get("count", -1)), int(d.get("complete", -1)), items
+
+
+def monitor_blocks(items, abc):
+    """ReadBlock: short mode = whole records in file order; long-target mode = windows whose new parts reassemble each record.
+    Returns (error, [(name, seq)])"""
+    recon = []
+    cur = None
+    for op, d, line in items:
+        if op != "readblock" or not line.startswith("ok"):
+            continue
+        b = parse_block(line)
+        if b is None:
+            return "unparsable block line", recon
+        count, complete, ents = b
+        if count != len(ents):
+            return "block count=%d but %d entries" % (count, len(ents)), recon
+        lng = d.get("long") == "1"
+        for e in ents:
+            if e["seq"] is None or len(e["seq"]) != e["n"]:
+                return "block entry with n=%d but %d residues" % (e["n"], len(e["seq"] or b"")), recon
+            if not lng:
+                recon.append((e["name"], e["seq"]))
+                continue
+            new = e["seq"][e["C"]:]
+            if cur is not None and cur[0] == e["name"] and e["start"] + e["C"] == cur[2] + 1 and cur[2] >= 1 and (e["start"] > 1 or e["C"] > 0):
+                if e["C"] and cur[1][len(cur[1]) - e["C"]:] != e["seq"][:e["C"]]:
+                    return "block window context is not the preceding residues", recon
+                cur = (cur[0], cur[1] + new, e["end"])
+                recon[-1] = (cur[0], cur[1])
+            else:
+                if e["n"] and not (e["start"] == 1 and e["C"] == 0):
+                    return "first window of a record in a block does not start at 1: start=%d C=%d" % (e["start"], e["C"]), recon
+                cur = (e["name"], new, e["end"] if e["n"] else 0)
+                recon.append((cur[0], cur[1]))
+            if e["n"] and e["end"] != e["start"] + e["n"] - 1:
+                return "block window coordinates inconsistent", recon
+    return None, recon
+
+
 def monitor_c04(case, out):
     return keyed("C04", case, out, _monitor_c04)
 
@@ -548,8 +695,7 @@ def _monitor_c04(case, out):
     byfile = {}
     for data, od, items in sessions(case, out):
         abc = od.get("abc", "text")
-        if od.get("fmt") != "fasta":
-            continue
+        fasta = od.get("fmt") == "fasta"
         items = [(op, d, line) for op, d, line in items if line != "known-region"] if not any(
             line == "known-region" and op == "readwin" for op, d, line in items) else [x for x in items if x[0] != "readwin"]
         merged = byfile.setdefault(data, {"recs": {}, "counts": set()})
@@ -566,7 +712,7 @@ def _monitor_c04(case, out):
                 r = rec(line)
                 if st != "ok" or r is None:
                     return Failure("monitor", "%s on a well-formed file returned %r" % (op, line[:80]))
-                err = check_offsets(data, r, abc == "text" and op != "readinfo")
+                err = check_offsets(data, r, abc == "text" and op != "readinfo") if fasta else None
                 if err:
                     return Failure("monitor", "%s record %d (B=%s abc=%s): %s" % (op, idx, od.get("B"), abc, err))
                 m = merged["recs"].setdefault(idx, {})
@@ -590,6 +736,19 @@ def _monitor_c04(case, out):
             merged["counts"].add(idx)
             if len(merged["counts"]) > 1:
                 return Failure("monitor", "number of records differs between read paths: %s" % sorted(merged["counts"]))
+        if any(op == "readblock" for op, _, _ in items):
+            err, recon = monitor_blocks(items, abc)
+            if err:
+                return Failure("monitor", "blocks (B=%s abc=%s): %s" % (od.get("B"), abc, err))
+            ended = any(op == "readblock" and line == "eof" for op, _, line in items)
+            for i, (name, seq) in enumerate(recon):
+                m = merged["recs"].setdefault(i, {})
+                last = i == len(recon) - 1
+                for k, v in (("name", name), ("seq:" + abc, seq)):
+                    if k in m and m[k][0] != v and not (k.startswith("seq") and last and not ended):
+                        return Failure("monitor", "record %d: %s delivered by ReadBlock (B=%s abc=%s) differs from %s" % (i, k, od.get("B"), abc, m[k][1]))
+                    if not (k.startswith("seq") and last and not ended):
+                        m.setdefault(k, (v, "blocks B=%s abc=%s" % (od.get("B"), abc)))
         if any(op == "readwin" for op, _, _ in items):
             err, recon = monitor_windows(items, abc)
             if err:
